@@ -2,7 +2,7 @@
 from fractions import Fraction as F
 from hypothesis import strategies as st
 
-from vlib.runner import Check, Outcome
+from vlib.runner import Check, Outcome, InvalidCase
 from vlib.interp import execute, num
 from vlib.probe import Probe
 from vlib.scopelog import Structure
@@ -75,14 +75,24 @@ def fluid(T, trs):
 @st.composite
 def cases(draw, tier):
     big = tier == 'thorough'
-    unbounded = draw(st.integers(0, 5)) == 0
-    T = None if unbounded else draw(st.sampled_from(DY))
+
+    def pipe_spec():
+        r = draw(st.integers(0, 11))
+        if r < 2:
+            return {'unbounded': True}
+        if r < 3:
+            return {'thr': 'inf'}          # the documented infinite-throughput Pipe
+        return {'thr': draw(st.sampled_from(DY))}
+    pipes = [pipe_spec() for _ in range(draw(st.sampled_from([1, 1, 1, 2])))]
     kids = []
     n = draw(st.integers(1, 6 if big else 5))
-    for i in range(n):
+
+    def transfer(pi=None):
         V = draw(st.sampled_from([0, 0.5, 1, 2, 3, 4, 6, 8, 12]))
         L = draw(st.sampled_from([None, None] + DY))
-        tr = {'op': 'transfer', 'p': 0, 'total': V, 'thr': L}
+        return {'op': 'transfer', 'p': draw(st.integers(0, len(pipes) - 1)) if pi is None else pi, 'total': V, 'thr': L}
+    for i in range(n):
+        tr = transfer()
         steps = []
         off = draw(st.sampled_from([0, 0, 0.5, 1, 2, 3]))
         if off:
@@ -93,18 +103,34 @@ def cases(draw, tier):
                   'children': [], 'body': [tr]}
         steps.append(tr)
         if draw(st.integers(0, 3)) == 0:
-            steps.append({'op': 'transfer', 'p': 0, 'total': draw(st.sampled_from([0, 1, 2])), 'thr': None})
+            steps.append({'op': 'transfer', 'p': tr.get('p', 0), 'total': draw(st.sampled_from([0, 1, 2])), 'thr': None})
         kids.append({'name': 't%d' % i, 'steps': steps})
     if draw(st.integers(0, 3)) == 0:
         kids.append({'name': 'x0', 'steps': [{'op': 'sleep', 'd': draw(st.sampled_from([0.5, 1, 1.5, 2, 3]))},
                                              {'op': 'cancel', 'ref': 't0', 'token': [1]}]})
     blk = {'op': 'scope', 'name': 'S', 'children': kids, 'body': [], 'catch': True}
-    if draw(st.integers(0, 7)) == 0:
+    mode = draw(st.integers(0, 9))
+    if mode == 0:
         blk['op'], blk['notif'] = 'until', ['delay', draw(st.sampled_from([1, 2, 3, 5]))]
-    fin = {'name': 'fin', 'steps': [{'op': 'at_ge', 't': 1000}, {'op': 'transfer', 'p': 0, 'total': 4, 'thr': None},
-                                    {'op': 'transfer', 'p': 0, 'total': 3, 'thr': 1}]}
-    prog = {'start': draw(st.sampled_from([0, 0, -2, 1.5])), 'objs': {'pipes': [{'unbounded': True} if unbounded else {'thr': T}]},
-            'roots': [{'name': 'r0', 'steps': [blk]}, fin]}
+    elif mode <= 2:
+        # some transfers run as volatile tasks: they are closed when the body and the other children are done
+        for k in kids:
+            if k['name'].startswith('t') and draw(st.booleans()):
+                k['volatile'] = True
+        blk['body'] = [{'op': 'sleep', 'd': draw(st.sampled_from([0.5, 1, 2, 3]))}]
+    elif mode == 3:
+        # the scope fails while transfers are in flight: its children are closed
+        blk['body'] = [{'op': 'sleep', 'd': draw(st.sampled_from([0.5, 1, 2, 3]))}, {'op': 'raise', 'eid': 1, 'cls': 'E'}]
+    roots = [{'name': 'r0', 'steps': [blk]}]
+    if draw(st.integers(0, 2)) == 0:
+        # transfers of an activity outside the scope share the pipes with whatever happens inside
+        roots.append({'name': 'ot', 'steps': [{'op': 'sleep', 'd': draw(st.sampled_from([0, 0.5, 1]))}, transfer(0),
+                                              transfer(len(pipes) - 1)]})
+    fin = {'name': 'fin', 'steps': [{'op': 'at_ge', 't': 1000}]}
+    for pi in range(len(pipes)):
+        fin['steps'] += [{'op': 'transfer', 'p': pi, 'total': 4, 'thr': None}, {'op': 'transfer', 'p': pi, 'total': 3, 'thr': 1}]
+    roots.append(fin)
+    prog = {'start': draw(st.sampled_from([0, 0, -2, 1.5])), 'objs': {'pipes': pipes}, 'roots': roots}
     targets = ['t%d' % i for i in range(n)]
     faults = draw(st.lists(st.fixed_dictionaries({'k': st.integers(0, 80), 'target': st.sampled_from(targets),
                                                   'token': st.just([1])}), max_size=3))
@@ -118,13 +144,14 @@ def judge(out, case, it, oc, exc, ctx):
         return
     S = Structure(prog)
     log = [e for e in it.log if e[0] <= it.end_seq]
-    spec = prog['objs']['pipes'][0]
-    T = None if spec.get('unbounded') else F(spec['thr'])
+    specs = prog['objs']['pipes']
+    if not specs:
+        raise InvalidCase('no pipe')
+    Ts = [None if (sp.get('unbounded') or sp['thr'] == 'inf') else F(sp['thr']) for sp in specs]
     fin_time = {}
     for e in log:
         if e[3] == 'fin':
             fin_time[e[1]] = e[4]
-    trs, keys = [], []
     begun = {}
     for e in log:
         if e[3] in ('begin', 'ok'):
@@ -143,25 +170,6 @@ def judge(out, case, it, oc, exc, ctx):
     for e in log:
         if e[3] in ('leave',):
             leave_time[(e[1], e[2])] = e[4]
-    for key, (b, okev, node) in sorted(begun.items(), key=lambda kv: kv[1][0][0]):
-        L = node.get('thr')
-        L = F(num(L)) if L is not None else (T if T is not None else None)
-        remove = None
-        if okev is None:
-            # left without completing: removal time = when the enclosing until-block or the activity ended
-            act, idx = key
-            rt = None
-            for cut in range(len(idx) - 1, 0, -1):
-                if idx[cut] == 'b' and (act, idx[:cut]) in leave_time:
-                    rt = leave_time[(act, idx[:cut])]
-                    break
-            if rt is None:
-                rt = fin_time.get(act)
-            if rt is None:
-                continue          # still running at the end of the run (cannot happen: run ended)
-            remove = F(rt)
-        trs.append({'start': F(b[4]), 'V': F(num(node['total'])), 'L': L, 'remove': remove})
-        keys.append((key, b, okev))
     # a transfer whose scope was left is interrupted: nothing of it may run (or occupy the pipe) afterwards
     s_leave = next((e for e in log if e[1] == 'r0' and e[3] == 'leave' and e[2] == (0,)), None)
     if s_leave is not None:
@@ -169,45 +177,68 @@ def judge(out, case, it, oc, exc, ctx):
         if late:
             out.fail('fluid', 'transfer_outlived_scope', 'scope left at t=%r (seq %d) but %s logged %r afterwards;%s' % (
                 s_leave[4], s_leave[0], late[0][1], late[0][2:5], ctx))
-    done, amb = fluid(T, trs)
     removed_midflight = False
-    for (key, b, okev), tr, d, a in zip(keys, trs, done, amb):
-        if a:
-            out.features.add('tie_removal_completion')
-            continue
-        what = '%s%s V=%s L=%s start=%s' % (key[0], key[1], tr['V'], tr['L'], tr['start'])
-        if okev is None:
-            if d is not None and abs(float(d) - float(tr['remove'])) <= 1e-9 * (1 + abs(float(d))):
-                out.features.add('tie_removal_completion')      # equal up to rounding: either may win
+    for pi, T in enumerate(Ts):
+        trs, keys = [], []
+        for key, (b, okev, node) in sorted(begun.items(), key=lambda kv: kv[1][0][0]):
+            if node.get('p', 0) != pi:
                 continue
-            if d is not None and d < tr['remove']:
-                out.fail('fluid', 'not_completed', '%s should have completed at %s but was still running when removed at %s;%s' % (
-                    what, float(d), float(tr['remove']), ctx))
-            if tr['remove'] > tr['start']:
-                removed_midflight = True
-            continue
-        if d is None:
-            out.fail('fluid', 'completed_unexpectedly', '%s completed at %r, model: never;%s' % (what, okev[4], ctx))
-            continue
-        got, want = okev[4], float(d)
-        if abs(got - want) > 1e-9 * (1 + abs(want)):
-            if tr['V'] == 0 or (T is None and tr['L'] is None):
-                sig = 'zero_time_transfer_took_time'
-            elif got > want:
-                sig = 'too_slow_after_removal' if removed_midflight else 'too_slow'
-            else:
-                sig = 'too_fast'
-            out.fail('fluid', sig, '%s completed at %r, fluid model %r (pipe %s);%s' % (what, got, want, T, ctx))
-    # features
-    if T is not None:
-        evs = sorted({t['start'] for t in trs})
-        for t0 in evs:
-            act = [t for t, d in zip(trs, done) if t['start'] <= t0 and (d is None or d > t0)
-                   and (t['remove'] is None or t['remove'] > t0)]
-            if len(act) >= 2 and sum(t['L'] for t in act) > T:
-                out.features.add('congested')
-                if len({t['L'] for t in act}) > 1:
-                    out.features.add('congested_unequal_limits')
+            L = node.get('thr')
+            L = F(num(L)) if L is not None else (T if T is not None else None)
+            remove = None
+            if okev is None:
+                # left without completing: removal time = when the enclosing until-block or the activity ended
+                act, idx = key
+                rt = None
+                for cut in range(len(idx) - 1, 0, -1):
+                    if idx[cut] == 'b' and (act, idx[:cut]) in leave_time:
+                        rt = leave_time[(act, idx[:cut])]
+                        break
+                if rt is None:
+                    rt = fin_time.get(act)
+                if rt is None:
+                    continue          # still running at the end of the run (cannot happen: run ended)
+                remove = F(rt)
+            trs.append({'start': F(b[4]), 'V': F(num(node['total'])), 'L': L, 'remove': remove})
+            keys.append((key, b, okev))
+        done, amb = fluid(T, trs)
+        for (key, b, okev), tr, d, a in zip(keys, trs, done, amb):
+            if a:
+                out.features.add('tie_removal_completion')
+                continue
+            what = '%s%s V=%s L=%s start=%s' % (key[0], key[1], tr['V'], tr['L'], tr['start'])
+            if okev is None:
+                if d is not None and abs(float(d) - float(tr['remove'])) <= 1e-9 * (1 + abs(float(d))):
+                    out.features.add('tie_removal_completion')      # equal up to rounding: either may win
+                    continue
+                if d is not None and d < tr['remove']:
+                    out.fail('fluid', 'not_completed', '%s should have completed at %s but was still running when removed at %s;%s' % (
+                        what, float(d), float(tr['remove']), ctx))
+                if tr['remove'] > tr['start']:
+                    removed_midflight = True
+                continue
+            if d is None:
+                out.fail('fluid', 'completed_unexpectedly', '%s completed at %r, model: never;%s' % (what, okev[4], ctx))
+                continue
+            got, want = okev[4], float(d)
+            if abs(got - want) > 1e-9 * (1 + abs(want)):
+                if tr['V'] == 0 or (T is None and tr['L'] is None):
+                    sig = 'zero_time_transfer_took_time'
+                elif got > want:
+                    sig = 'too_slow_after_removal' if removed_midflight else 'too_slow'
+                else:
+                    sig = 'too_fast'
+                out.fail('fluid', sig, '%s completed at %r, fluid model %r (pipe %s);%s' % (what, got, want, T, ctx))
+        # features
+        if T is not None:
+            evs = sorted({t['start'] for t in trs})
+            for t0 in evs:
+                act = [t for t, d in zip(trs, done) if t['start'] <= t0 and (d is None or d > t0)
+                       and (t['remove'] is None or t['remove'] > t0)]
+                if len(act) >= 2 and sum(t['L'] for t in act) > T:
+                    out.features.add('congested')
+                    if len({t['L'] for t in act}) > 1:
+                        out.features.add('congested_unequal_limits')
     if removed_midflight:
         out.features.add('removal_midflight')
     return removed_midflight
@@ -216,9 +247,11 @@ def judge(out, case, it, oc, exc, ctx):
 class C13(Check):
     pid = 'C13'
     level = 'exploration'
-    rule = ('Pipe(throughput T dyadic) or UnboundedPipe with 1-6 transfers (volume incl. 0, limit dyadic or default, '
-            'overlapping start offsets, negative/fractional start time), some inside until(time+d), cancelled by a '
-            'sibling or by an injected cancel, optional enclosing until(); two probe transfers after everything. '
+    rule = ('1-2 pipes - Pipe(throughput T dyadic), Pipe(inf) or UnboundedPipe - with 1-6 transfers (volume incl. 0, limit '
+            'dyadic or default, overlapping start offsets, negative/fractional start time), some inside until(time+d), '
+            'cancelled by a sibling or by an injected cancel, run as volatile tasks closed at the end of their scope, '
+            'closed by a failing scope body or by an enclosing until(), optionally next to transfers of an activity '
+            'outside the scope; two probe transfers per pipe after everything. '
             'Oracle: exact processor-sharing model (fractions.Fraction), tolerance 1e-9*(1+|t|). non-trivial = >=2 '
             'overlapping transfers with sum of limits > T and unequal limits, or a removal mid-flight; distinct by '
             'sha1(program+faults).')
@@ -228,7 +261,8 @@ class C13(Check):
                   'removed from the model at their removal time, so later completions and the probe transfers expose '
                   'any bandwidth they keep.')
     level_note = ('Arrival and removal times are taken from the log (they are fixed by the program, not by the pipe). '
-                  'Infinite per-transfer limits on a finite pipe are not generated. Ties removal==completion skipped.')
+                  'Infinite per-transfer limits on a finite pipe are not generated; Pipe(inf) is modelled like the '
+                  'unbounded pipe (every transfer runs at its own limit). Ties removal==completion skipped.')
     technique = 'property-based testing against an exact rational fluid (processor-sharing) reference model'
     design_ref = 'DESIGN.md section 4, C13'
 
